@@ -65,7 +65,7 @@ var c15Actions = []string{"CreateStream", "DeleteStream", "PauseStream", "SetStr
 var c15Streams = []string{"foo", "bar", "new"}
 
 // every resource name the policy file speaks about (revoke/grant ops index into this list)
-var c15Resources = []string{"foo", "bar", "new", "*", "__cursors", "subj.foo"}
+var c15Resources = []string{"foo", "bar", "new", "*", "__cursors", "subj.foo", "subj.foo.1"}
 
 // classification of every method of the client API: a new method fails the check until it is listed here
 var c15Classified = map[string]string{
@@ -127,6 +127,9 @@ func genC15(r *simrt.Rand, tier string, idx int) *hx.Program {
 	}
 	if r.Pct(35) {
 		p.P["foo2"] = 1 // foo has two partitions
+	}
+	if r.Pct(30) {
+		p.P["subjnum"] = 1 // bar's subject is subj.foo.1
 	}
 	if r.Pct(40) {
 		p.P["noise"] = 1 // admin's reads run next to the judged calls
@@ -513,7 +516,13 @@ func execC15(t *testing.T, prog *hx.Program, dec *simrt.Decider, verbose bool) *
 				parts = 2
 				h.s.Count("probe.foo_two_partitions")
 			}
-			_, err := env.call("CreateStream", "admin", 10*time.Second, 0, &client.CreateStreamRequest{Name: name, Subject: "subj." + name, Partitions: parts, ReplicationFactor: 1})
+			subject := "subj." + name
+			if name == "bar" && prog.Param("subjnum", 0) == 1 {
+				// bar listens on a subject that extends foo's by a numeric token (the shape of a partition's subject):
+				// a grant on subj.foo says nothing about subj.foo.1
+				subject = "subj.foo.1"
+			}
+			_, err := env.call("CreateStream", "admin", 10*time.Second, 0, &client.CreateStreamRequest{Name: name, Subject: subject, Partitions: parts, ReplicationFactor: 1})
 			if c15refusal(err) {
 				h.fail("C15/allowed-refused", "C15/allowed-refused:setup-create", "admin holds every policy entry but could not create %s: %v", name, err)
 				return
@@ -830,7 +839,11 @@ func execC15(t *testing.T, prog *hx.Program, dec *simrt.Decider, verbose bool) *
 			case "pubsubject":
 				action = "PublishToSubject"
 				resource = "subj.foo"
-				_, err = env.call(action, ident, deadline(3*time.Second), variant, &client.PublishToSubjectRequest{Subject: "subj.foo", Value: []byte(fmt.Sprintf("%s-subj-%d", who, i)), AckPolicy: ackPolicy()})
+				if prog.Param("subjnum", 0) == 1 && i%2 == 1 {
+					resource = "subj.foo.1"
+					h.s.Count("probe.publish_to_numbered_subject")
+				}
+				_, err = env.call(action, ident, deadline(3*time.Second), variant, &client.PublishToSubjectRequest{Subject: resource, Value: []byte(fmt.Sprintf("%s-subj-%d", who, i)), AckPolicy: ackPolicy()})
 			case "subscribe", "subresume", "subgroup":
 				action = "Subscribe"
 				req := &client.SubscribeRequest{Stream: stream, Partition: partOf(stream), StartPosition: client.StartPosition_EARLIEST}
